@@ -10,11 +10,11 @@ import (
 )
 
 func configs(quick bool) []tsssig.Cfg {
-	ev := []string{"de1", "de2", "reset", "req", "reqfail", "sig", "block"}
+	ev := []string{"de1", "de2", "reset", "req", "reqfail", "oreq", "oreqlow", "sig", "block"}
 	if quick {
 		return []tsssig.Cfg{
-			{N: 3, T: 2, SigningPeriod: 1, MaxSigningAttempt: 2, MaxDESize: 2, InitDE: 1, MaxReq: 3, Depth: 6, Events: ev, FeePerSigner: 10},
-			{N: 3, T: 2, SigningPeriod: 2, MaxSigningAttempt: 2, MaxDESize: 1, InitDE: 1, MaxReq: 2, Depth: 7, Events: ev, FeePerSigner: 10},
+			{N: 3, T: 2, SigningPeriod: 1, MaxSigningAttempt: 2, MaxDESize: 2, InitDE: 1, MaxReq: 3, Depth: 5, Events: ev, FeePerSigner: 10},
+			{N: 3, T: 2, SigningPeriod: 2, MaxSigningAttempt: 2, MaxDESize: 1, InitDE: 1, MaxReq: 2, Depth: 6, Events: ev, FeePerSigner: 10},
 		}
 	}
 	var out []tsssig.Cfg
@@ -32,12 +32,12 @@ func init() {
 	engine.Register(&engine.Check{
 		ID: "C05",
 		Run: func(r *engine.Run) {
-			r.Bound = "group of 3, t=2 installed by a real DKG; unique nonce tokens; interleavings of SubmitDEs(1|2), ResetDE, RequestSignature, RequestSignature rolled back by a failing second message, SubmitSignature, blocks (time-outs, retries); MaxDESize in {1,2,3}; depth 6-7 (quick) / 8 (thorough)"
+			r.Bound = "group of 3, t=2 installed by a real DKG; unique nonce tokens; interleavings of SubmitDEs(1|2), ResetDE, RequestSignature, RequestSignature rolled back by a failing second message, oracle results put to the group at block end (created / refused for fee limit / refused for lack of nonces inside the cache context), SubmitSignature, blocks (time-outs, retries); MaxDESize in {1,2,3}; depth 5-6 (quick) / 8 (thorough)"
 			r.Assumptions = []string{
 				"committee choice is read back from the stored attempt (C09's subject); checked for eligibility (active, non-empty queue)",
 				"a member never registers the same nonce pair twice (tokens are unique by construction)",
 			}
-			r.Required = []string{"de:ok", "de-rejected-over-max", "reset:ok", "req:ok", "retry", "reqfail:sdk/5", "req-rejected:too-few-eligible"}
+			r.Required = []string{"de:ok", "de-rejected-over-max", "reset:ok", "req:ok", "retry", "reqfail:sdk/5", "req-rejected:too-few-eligible", "oracle-signing-created", "oracle-signing-refused:fee-limit", "oracle-signing-refused:too-few-eligible"}
 			tsssig.Run(r, "C05", configs(r.Quick()), 5*time.Minute, 45*time.Minute)
 		},
 		Replay: tsssig.Replay,
